@@ -17,6 +17,7 @@ import (
 	"math/rand"
 	"strconv"
 	"strings"
+	"sync"
 
 	"0chain.net/chaincore/block"
 	"0chain.net/chaincore/node"
@@ -322,9 +323,30 @@ func (s *spec) tamper(w []string) (*spec, bool) {
 	return c, true
 }
 
-func impl(ops []string) []string {
+var (
+	verdictMu   sync.Mutex
+	verdictHist = map[string]int{}
+)
+
+// countVerdicts records the verdict classes of a run for the evidence file (which rejection classes were exercised).
+func countVerdicts(outs []string) {
+	verdictMu.Lock()
+	defer verdictMu.Unlock()
+	for _, o := range outs {
+		f := strings.Fields(o)
+		switch {
+		case len(f) >= 3 && f[0] == "hash":
+			verdictHist[strings.Join(f[2:], " ")]++
+		case len(f) >= 1 && (f[0] == "ok" || f[0] == "reject"):
+			verdictHist[o]++
+		}
+	}
+}
+
+func impl(ops []string) (outs []string) {
+	defer func() { countVerdicts(outs) }()
 	hashkit.Setup()
-	outs := make([]string, len(ops))
+	outs = make([]string, len(ops))
 	var cur *spec
 	scheme := ""
 	for i, op := range ops {
@@ -772,10 +794,19 @@ func main() {
 		ID: "C29", Model: "C29", Gen: gen, Impl: impl, Oracle: oracle,
 		Cases: func(th bool) int {
 			if th {
-				return 4000
+				return 2500
 			}
 			return 150
 		},
 		Fixed: fixed(),
+		Extra: func() map[string]interface{} {
+			verdictMu.Lock()
+			defer verdictMu.Unlock()
+			m := map[string]interface{}{}
+			for k, v := range verdictHist {
+				m[k] = v
+			}
+			return map[string]interface{}{"verdict_hist": m}
+		},
 	})
 }
